@@ -378,6 +378,11 @@ def check(eng, res):
 
     c11.draw_params(eng, res)
     c11.law_formulas(eng, res)
+    from . import c10 as _c10
+
+    res.doc("R-NO-SHARED-MUTABLE", "each distribution object owns the law object it configures: nothing bound once per class is re-configured through an instance")
+    _c10.shared_mutable(eng, res)
+    _c10.shared_class_object(eng, res, only_classes=["Distribution", "rv_discrete", "rv_continuous"])
     c11.interval(eng, res)
     # the loop law links the draw to the block size: one draw, at least one unit, stop at the first unit beyond the target (from C07)
     sub = type(res)(res.prop)
